@@ -927,6 +927,27 @@ def check_C20(work, args):
     if '--replay' in args:
         return replay(ck, world, args[args.index('--replay') + 1])
 
+    # ---- the Coq model of the document store and of the position conversion (coq/Model/Lsp.v, Props/C20.v):
+    # proof step, then the correspondence of the model with the real code (tools/k6_lspmodel.py)
+    import checks
+    import k6_lspmodel
+    t0 = time.time()
+    pst = checks.proof_step(ck, 'C20')
+    model_findings, model_cov = [], {}
+    try:
+        model_bad, model_findings, model_cov = k6_lspmodel.run(ck, work, realistic=list(k6.FRAGMENTS) + list(k6.FIXED_SWEEPS))
+    except Exception as e:
+        model_bad = [{'kind': 'correspondence_did_not_run', 'what': repr(e)[:1500]}]
+    if checks.proof_broken(pst):
+        ck.violation('proof: ' + checks.proof_summary(pst), {'broken': 'coq/Props/C20.v', 'report': checks.proof_summary(pst)}, no_input=True)
+    for b in model_bad[:3]:
+        if b.get('property_fails'):
+            ck.violation('[lsp_model] the position conversion of the real code leaves the document: %s' % canon(b)[:1200], b)
+        else:
+            ck.violation('[lsp_model] the Coq model of the language server (coq/Model/Lsp.v) and the real code disagree (%s): %s'
+                         % (b.get('kind'), canon(b)[:1200]), b, no_input=True)
+    t_model = time.time() - t0
+
     n_random = 200 if quick else 5000
     n_stdio_h = 15 if quick else 100
     paces = ['sync', 'burst'] if quick else ['sync', 'burst', 'paced']
@@ -1208,6 +1229,21 @@ def check_C20(work, args):
         'known_witnesses_still_failing': sorted('%s/%s' % k for k in known.still),
         'timing_s': {'ground_truth': round(t_truth, 1), 'in_process': round(t_inproc, 1), 'stdio': round(t_stdio, 1), 'build': round(t_build or 0, 1), 'shrink_and_confirm': round(t_shrink, 1)},
     }
+    nthm = len(pst['theorems'])
+    ck.cov.update({
+        'theorems': pst['theorems'],
+        'obligations': nthm + 1, 'discharged': (nthm if not checks.proof_broken(pst) else 0) + (0 if model_bad else 1),
+        'checker_cmd': 'make -C coq (coq_makefile, full .vo) ; coqc -Q . LV Props/C20.v (Print Assumptions parsed) ; source audit grep ; '
+                       'python3 tools/k6_lspmodel.py (model ocaml/lspdriver vs lv-harness lsppos / lsp and lelwel-ls)',
+        'trusted_base': lv.TRUSTED_BASE[:3] + [
+            'ocaml/lspdriver.ml, harness/src/lsppos.rs + the add-only hook verif_position_to_offset / verif_span_to_range (cfg lelwel_verif), tools/k6_lspmodel.py: trusted for the correspondence only',
+            'modelled, not verified: the analysis (parse, semantic pass, hover/lookup/completion/format) as an abstract function of the text; uris as numbers; usize/u32 as nat; '
+            'not modelled: analysis threads and channels, JSON-RPC transport, non-file uris'],
+        'model_scope': 'theorems: document store (no crash on conformant histories, every output computed from the latest text, independence, one publication per text notification) '
+                       'and position conversion (bounds, character boundaries, addressed line, totality on boundaries, round trip); the other clauses of C20 are decided by the exploration below',
+        'model_correspondence': model_cov, 'model_disagreements': len(model_bad), 'model_findings': model_findings,
+    })
+    ck.cov['timing_s']['model_proof_and_correspondence'] = round(t_model, 1)
     ck.assumptions = [
         'the in-process driver (harness/src/lsp.rs) replicates the control flow of src/bin/lelwel-ls.rs per message kind; checked on every run by comparing its answers with the binary over stdio',
         'expected diagnostics are computed from the command-line front end (harness gen/sema) with an independent byte-offset -> line/UTF-16 conversion',
